@@ -622,10 +622,7 @@ func (vc *VC) useContract(in ssa.Instruction, ct *FuncContract, sig *types.Signa
 		if err != nil {
 			vc.fail("ensures#%d of %s at call site: %v", i+1, ct.Key(), err)
 		}
-		for _, d := range evPost.skolems {
-			vc.root().decls = append(vc.root().decls, d)
-		}
-		evPost.skolems = nil
+		vc.flushSkolems(evPost, vc.curR)
 		vc.assume(implies(vc.curR, t))
 	}
 	if res.Len() == 0 {
